@@ -1,10 +1,175 @@
-"""Checker self-test (placeholder until the mutant matrix is filled in)."""
+"""Checker self-test: the checkers are run on scratch copies of the *committed* tree
+(git HEAD of /repo, so edits in the working tree do not disturb it) with one
+change applied each:
+
+* must-fire variants: hand-written mutants (sa/selftest_variants.py) and the
+  confirmed seeded patches under /verif/seeded/<id>/patch.diff -- the property's
+  check must exit 1 and (for hand-written ones) name the expected rule;
+* must-stay-silent variants: behaviour-preserving refactorings -- the check must
+  exit 0.
+
+Scratch copies live under /dev/shm (or $TMPDIR), never under /repo or /verif,
+and are removed as soon as the verdict is recorded."""
+
+import contextlib
+import glob
+import io
+import json
+import os
+import shutil
+import subprocess
+import sys
+import tempfile
+import time
+from multiprocessing import Pool
+
+VERIF = os.path.dirname(os.path.dirname(os.path.abspath(__file__)))
+REPO = "/repo"
 
 
-def run_for_property(pid, seed):
-    return {"mutants": 0, "benign": 0, "failed": []}
+def scratch_base():
+    for d in ("/dev/shm", os.environ.get("TMPDIR", ""), "/tmp"):
+        if d and os.path.isdir(d) and os.access(d, os.W_OK):
+            return d
+    return tempfile.gettempdir()
+
+
+def export_head(dst):
+    """Copy the committed eliot/*.py of /repo's HEAD into dst/eliot."""
+    os.makedirs(os.path.join(dst, "eliot"), exist_ok=True)
+    try:
+        out = subprocess.run(["git", "-C", REPO, "archive", "HEAD", "eliot"], capture_output=True, check=True).stdout
+        subprocess.run(["tar", "-x", "-C", dst, "--exclude=eliot/tests"], input=out, check=True)
+    except Exception:
+        # no git metadata available: fall back to the working tree
+        for fn in os.listdir(os.path.join(REPO, "eliot")):
+            if fn.endswith(".py"):
+                shutil.copy(os.path.join(REPO, "eliot", fn), os.path.join(dst, "eliot", fn))
+
+
+def load_variants():
+    from . import selftest_variants as sv
+    variants = list(sv.VARIANTS)
+    for meta_path in sorted(glob.glob(os.path.join(VERIF, "seeded", "*", "meta.json"))):
+        try:
+            meta = json.load(open(meta_path))
+        except Exception:
+            continue
+        d = os.path.dirname(meta_path)
+        variants.append({"id": "seed:" + os.path.basename(d), "kind": "mutant", "props": meta.get("detected_by", [meta["property"]]),
+                         "patch": os.path.join(d, "patch.diff"), "expect": ""})
+    return variants
+
+
+def _apply(variant, root):
+    if "patch" in variant:
+        r = subprocess.run(["patch", "-p1", "-s", "-d", root, "-i", variant["patch"]], capture_output=True)
+        return r.returncode == 0, (r.stdout + r.stderr).decode()[:200]
+    for fn, old, new in variant["edits"]:
+        path = os.path.join(root, "eliot", fn)
+        src = open(path, encoding="utf-8").read()
+        if old not in src:
+            return False, "fragment not found in %s" % fn
+        src = src.replace(old, new, 1)
+        open(path, "w", encoding="utf-8").write(src)
+    if variant.get("black"):
+        subprocess.run(["/venv/bin/python", "-m", "black", "-q", os.path.join(root, "eliot")], capture_output=True)
+    return True, ""
+
+
+def run_variant(args):
+    variant, props = args
+    from .check import run_property
+    base = tempfile.mkdtemp(prefix="sa-selftest-", dir=scratch_base())
+    res = {"id": variant["id"], "kind": variant["kind"], "results": {}, "skipped": None}
+    try:
+        export_head(base)
+        ok, why = _apply(variant, base)
+        if not ok:
+            res["skipped"] = why
+            return res
+        for fn in os.listdir(os.path.join(base, "eliot")):
+            if fn.endswith(".py"):
+                try:
+                    compile(open(os.path.join(base, "eliot", fn), encoding="utf-8").read(), fn, "exec")
+                except SyntaxError as e:
+                    res["skipped"] = "variant does not compile: %s" % e
+                    return res
+        for pid in props:
+            buf = io.StringIO()
+            with contextlib.redirect_stdout(buf), contextlib.redirect_stderr(buf):
+                rc = run_property(pid, "quick", base, 0, selftest=False, out_dir=os.path.join(base, "out"), evidence_dir=os.path.join(base, "ev"))
+            res["results"][pid] = (rc, buf.getvalue())
+    finally:
+        shutil.rmtree(base, ignore_errors=True)
+    return res
+
+
+def judge(variant, res):
+    """-> list of failure strings"""
+    fails = []
+    if res["skipped"]:
+        return fails
+    for pid, (rc, out) in res["results"].items():
+        if variant["kind"] == "mutant":
+            if rc != 1:
+                fails.append("%s: mutant not reported by %s (rc=%d): %s" % (variant["id"], pid, rc, out.strip().splitlines()[-1:] if out.strip() else ""))
+            elif variant.get("expect") and variant["expect"] not in out:
+                fails.append("%s: %s fired but did not name rule %s" % (variant["id"], pid, variant["expect"]))
+        else:
+            if rc != 0:
+                lines = [l for l in out.splitlines() if l.startswith("  ") or l.startswith("ANALYSIS")]
+                fails.append("%s: benign refactoring raised an alarm in %s (rc=%d): %s" % (variant["id"], pid, rc, lines[:2]))
+    return fails
+
+
+def run_for_property(pid, seed, jobs=16):
+    variants = load_variants()
+    sel = []
+    for v in variants:
+        if v["kind"] == "mutant" and pid in v["props"]:
+            sel.append((v, [pid]))
+        elif v["kind"] == "benign" and (pid in v["props"] or "*" in v["props"]):
+            sel.append((v, [pid]))
+    return _run(sel, jobs)
+
+
+def _run(sel, jobs=16):
+    t0 = time.time()
+    failed, skipped = [], []
+    n_m = n_b = 0
+    if sel:
+        with Pool(min(jobs, len(sel))) as pool:
+            results = pool.map(run_variant, sel, chunksize=1)
+        for (v, props), res in zip(sel, results):
+            if res["skipped"]:
+                skipped.append("%s: %s" % (v["id"], res["skipped"]))
+                continue
+            if v["kind"] == "mutant":
+                n_m += 1
+            else:
+                n_b += 1
+            failed += judge(v, res)
+    return {"mutants": n_m, "benign": n_b, "skipped": skipped, "failed": failed, "wall_s": round(time.time() - t0, 1)}
 
 
 def main(argv, seed):
-    print("selftest: matrix not built yet")
-    return 0
+    from .check import ALL_IDS
+    variants = load_variants()
+    ids = [a for a in argv if a.startswith("C")] or ALL_IDS
+    sel = []
+    for v in variants:
+        if v["kind"] == "mutant":
+            props = [p for p in v["props"] if p in ids]
+        else:
+            props = ids if "*" in v["props"] else [p for p in v["props"] if p in ids]
+        if props:
+            sel.append((v, props))
+    res = _run(sel)
+    print("selftest: %d must-fire variants, %d must-stay-silent variants, %d skipped, %d FAILED (%.1fs)" % (
+        res["mutants"], res["benign"], len(res["skipped"]), len(res["failed"]), res["wall_s"]))
+    for s in res["skipped"]:
+        print("  skipped:", s)
+    for f in res["failed"]:
+        print("  FAILED:", f)
+    return 1 if res["failed"] else 0
